@@ -74,8 +74,16 @@ HOME = {
     ("src/qvector/rs_qvector.rs", "RSSupportPlain"): "src/qvector/rs_qvector/rs_support_plain.rs",
     ("src/qvector/rs_qvector.rs", "select_in_word_u128"): "src/utils/mod.rs",
     ("src/quadwt/mod.rs", "RSQVector"): "src/qvector/rs_qvector.rs",
+    ("src/quadwt/mod.rs", "stable_partition_of_4"): "src/utils/mod.rs",
+    ("src/quadwt/mod.rs", "msb"): "src/utils/mod.rs",
+    ("src/quadwt/mod.rs", "QVector"): "src/qvector/mod.rs",
+    ("src/quadwt/mod.rs", "QVectorBuilder"): "src/qvector/mod.rs",
     ("src/quadwt/huffqwt.rs", "RSQVector"): "src/qvector/rs_qvector.rs",
     ("src/binwt/mod.rs", "RSWide"): "src/bitvector/rs_wide.rs",
+    ("src/binwt/mod.rs", "BitVector"): "src/bitvector/mod.rs",
+    ("src/binwt/mod.rs", "BitVectorMut"): "src/bitvector/mod.rs",
+    ("src/binwt/mod.rs", "stable_partition_of_2"): "src/utils/mod.rs",
+    ("src/binwt/mod.rs", "msb"): "src/utils/mod.rs",
     ("src/darray/mod.rs", "select_in_word"): "src/utils/mod.rs",
     ("src/binwt/mod.rs", "PrefixCode"): "src/quadwt/huffqwt.rs",
     ("src/darray/mod.rs", "BitVector"): "src/bitvector/mod.rs",
@@ -149,6 +157,8 @@ TARGETS = list(GL.TARGETS) + [
     # ---- group qv2: QVector accessors (DataLine leaves are T3's)
     ("src/qvector/mod.rs", "QVector", "get_unchecked", "g_qv_get_unchecked", {}),
     ("src/qvector/mod.rs", "QVector", "get", "g_qv_get", {}),
+    ("src/qvector/mod.rs", "QVector", "len", "g_qv_len", {}),
+    ("src/qvector/mod.rs", "QVector", "is_empty", "g_qv_is_empty", {}),
     ("src/qvector/rs_qvector/rs_support_plain.rs", "RSSupportPlain", "new", "g_rss256_new", {"B_SIZE": 256}),
     ("src/qvector/rs_qvector/rs_support_plain.rs", "RSSupportPlain", "new", "g_rss512_new", {"B_SIZE": 512}),
     # ---- group rsq: RSQVector (both block sizes)
@@ -182,6 +192,10 @@ TARGETS = list(GL.TARGETS) + [
     ("src/qvector/rs_qvector.rs", "RSQVector", "rank_block_unchecked", "g_rsq512_rank_block_unchecked", {"S": "RSSupportPlain", "B_SIZE": 512}),
     ("src/qvector/rs_qvector.rs", "RSQVector", "select", "g_rsq512_select", {"S": "RSSupportPlain", "B_SIZE": 512}),
     ("src/qvector/rs_qvector.rs", "RSQVector", "select_unchecked", "g_rsq512_select_unchecked", {"S": "RSSupportPlain", "B_SIZE": 512}),
+    ("src/qvector/rs_qvector.rs", "RSQVector", "From::from", "g_rsq256_from", {"S": "RSSupportPlain", "B_SIZE": 256}),
+    ("src/qvector/rs_qvector.rs", "RSQVector", "From::from", "g_rsq512_from", {"S": "RSSupportPlain", "B_SIZE": 512}),
+    ("src/qvector/rs_qvector.rs", "RSQVector", "Default::default", "g_rsq256_default", {"S": "RSSupportPlain", "B_SIZE": 256}),
+    ("src/qvector/rs_qvector.rs", "RSQVector", "Default::default", "g_rsq512_default", {"S": "RSSupportPlain", "B_SIZE": 512}),
     # ---- group qwt: QWaveletTree walks (element width symbolic, RS = RSQVector<RSSupportPlain<B>>)
     ("src/quadwt/mod.rs", "QWaveletTree", "len", "g_qwt256_len", {"T": "@T", "RS": "RSQVector", "S": "RSSupportPlain", "B_SIZE": 256}),
     ("src/quadwt/mod.rs", "QWaveletTree", "is_empty", "g_qwt256_is_empty", {"T": "@T", "RS": "RSQVector", "S": "RSSupportPlain", "B_SIZE": 256}),
@@ -267,6 +281,17 @@ TARGETS = list(GL.TARGETS) + [
     ("src/darray/mod.rs", "DArray", "select1_unchecked", "g_da0_select1_unchecked", {"SELECT0_SUPPORT": True, "BIT": True}),
     ("src/darray/mod.rs", "DArray", "select0", "g_da0_select0", {"SELECT0_SUPPORT": True, "BIT": False}),
     ("src/darray/mod.rs", "DArray", "select0_unchecked", "g_da0_select0_unchecked", {"SELECT0_SUPPORT": True, "BIT": False}),
+    # ---- group utils: free functions of src/utils/mod.rs used by the constructors
+    ("src/utils/mod.rs", None, "msb", "g_msb", {"T": "@T"}),
+    ("src/utils/mod.rs", None, "stable_partition_of_4", "g_stable_partition_of_4", {"T": "@T"}),
+    ("src/utils/mod.rs", None, "stable_partition_of_2", "g_stable_partition_of_2", {"T": "@T"}),
+    # ---- group qvb: QVectorBuilder (construction of quad vectors)
+    ("src/qvector/mod.rs", "QVectorBuilder", "with_capacity", "g_qvb_with_capacity", {}),
+    ("src/qvector/mod.rs", "QVectorBuilder", "push", "g_qvb_push", {}),
+    ("src/qvector/mod.rs", "QVectorBuilder", "build", "g_qvb_build", {}),
+    ("src/qvector/mod.rs", "QVectorBuilder", "Extend::extend", "g_qvb_extend", {"T": "@T", "I": "[@T]"}),
+    ("src/qvector/mod.rs", "QVectorBuilder", "FromIterator::from_iter", "g_qvb_from_iter", {"T": "@T", "I": "[@T]"}),
+    ("src/qvector/mod.rs", "QVector", "FromIterator::from_iter", "g_qv_from_iter", {"T": "@T", "I": "[@T]"}),
     # ---- group bvm: BitVectorMut (the `&mut self` operations return the new values of the fields)
     ("src/bitvector/mod.rs", "DataLine", "set_symbol", "g_bline_set_symbol", {"__t3__": True}),
     ("src/bitvector/mod.rs", "BitVectorMut", "len", "g_bvm_len", {}),
@@ -284,6 +309,24 @@ TARGETS = list(GL.TARGETS) + [
     ("src/bitvector/mod.rs", "BitVectorMut", "set", "g_bvm_set", {}),
     ("src/bitvector/mod.rs", "BitVectorMut", "set_bits", "g_bvm_set_bits", {}),
     ("src/bitvector/mod.rs", "BitVectorMut", "shrink_to_fit", "g_bvm_shrink_to_fit", {}),
+    ("src/bitvector/mod.rs", "BitVector", "From::from", "g_bv_from_bvm", {}),
+    ("src/bitvector/rs_wide.rs", "RSWide", "From::from", "g_rsw_from", {}),
+    # ---- group iters: the iterators over bit vectors
+    ("src/bitvector/mod.rs", "BitVectorBitPositionsIter", "new", "g_pi1_new", {"BIT": True}),
+    ("src/bitvector/mod.rs", "BitVectorBitPositionsIter", "with_pos", "g_pi1_with_pos", {"BIT": True}),
+    ("src/bitvector/mod.rs", "BitVectorBitPositionsIter", "Iterator::next", "g_pi1_next", {"BIT": True, "Item": "usize"}),
+    ("src/bitvector/mod.rs", "BitVectorBitPositionsIter", "new", "g_pi0_new", {"BIT": False}),
+    ("src/bitvector/mod.rs", "BitVectorBitPositionsIter", "with_pos", "g_pi0_with_pos", {"BIT": False}),
+    ("src/bitvector/mod.rs", "BitVectorBitPositionsIter", "Iterator::next", "g_pi0_next", {"BIT": False, "Item": "usize"}),
+    ("src/bitvector/mod.rs", "BitVectorIter", "Iterator::next", "g_bvit_next", {"Item": "bool"}),
+    ("src/bitvector/mod.rs", "BitVectorIter", "ExactSizeIterator::len", "g_bvit_len", {}),
+    # ---- group wtnew: the plain binary WaveletTree::new
+    ("src/binwt/mod.rs", "WaveletTree", "new", "g_wt_new", {"T": "@T", "BRS": "RSWide", "COMPRESSED": False}),
+    # ---- group qwtnew: QWaveletTree::new (the whole construction: levels, partitions, directories)
+    ("src/quadwt/mod.rs", "QWaveletTree", "new", "g_qwt256_new", {"T": "@T", "RS": "RSQVector", "S": "RSSupportPlain", "B_SIZE": 256, "WITH_PREFETCH_SUPPORT": False}),
+    ("src/quadwt/mod.rs", "QWaveletTree", "new", "g_qwt512_new", {"T": "@T", "RS": "RSQVector", "S": "RSSupportPlain", "B_SIZE": 512, "WITH_PREFETCH_SUPPORT": False}),
+    ("src/quadwt/mod.rs", "QWaveletTree", "From::from", "g_qwt256_from_vec", {"T": "@T", "RS": "RSQVector", "S": "RSSupportPlain", "B_SIZE": 256, "WITH_PREFETCH_SUPPORT": False}),
+    ("src/quadwt/mod.rs", "QWaveletTree", "From::from", "g_qwt512_from_vec", {"T": "@T", "RS": "RSQVector", "S": "RSSupportPlain", "B_SIZE": 512, "WITH_PREFETCH_SUPPORT": False}),
 ]
 
 # group -> (source file, owner types or None, first index in TARGETS that belongs to T5)
@@ -294,12 +337,17 @@ GROUPS = {
     "rsw2": ("src/bitvector/rs_wide.rs", None),
     "rss": ("src/qvector/rs_qvector/rs_support_plain.rs", None),
     "rsq": ("src/qvector/rs_qvector.rs", None),
-    "qv2": ("src/qvector/mod.rs", None),
+    "qv2": ("src/qvector/mod.rs", ("QVector", "DataLine")),
     "qwt": ("src/quadwt/mod.rs", None),
     "hqwt": ("src/quadwt/huffqwt.rs", None),
     "wt": ("src/binwt/mod.rs", None),
     "da": ("src/darray/mod.rs", None),
     "bvm": ("src/bitvector/mod.rs", ("BitVectorMut", "DataLine@mut")),
+    "qvb": ("src/qvector/mod.rs", ("QVectorBuilder", "QVector@from_iter")),
+    "utils": ("src/utils/mod.rs", None),
+    "qwtnew": ("src/quadwt/mod.rs", ("QWaveletTree@new",)),
+    "wtnew": ("src/binwt/mod.rs", ("WaveletTree@new",)),
+    "iters": ("src/bitvector/mod.rs", ("BitVectorBitPositionsIter", "BitVectorIter", "BitVectorIntoIter")),
 }
 # which generated files a group's file must import (T3 leaves and earlier T5 groups)
 GROUP_IMPORTS = {
@@ -313,13 +361,18 @@ GROUP_IMPORTS = {
     "wt": ["FnsBv", "FnsRsw2"],
     "da": ["LeavesUtils", "FnsBv"],
     "bvm": ["LeavesUtils", "FnsBv"],
+    "qvb": ["LeavesLine", "LeavesQV", "FnsQv2"],
+    "utils": ["LeavesUtils"],
+    "wtnew": ["LeavesUtils", "FnsUtils", "FnsBv", "FnsBvm", "FnsRsw2"],
+    "iters": ["LeavesUtils", "FnsBv"],
+    "qwtnew": ["LeavesUtils", "FnsUtils", "FnsQv2", "FnsQvb", "FnsRss", "FnsRsq"],
     "rsq": ["LeavesUtils", "LeavesSB", "LeavesLine", "LeavesQV", "FnsRss", "FnsQv2"],
 }
 
 GL.RESERVED |= set("""while_loop for_loop iter_loop Next Brk Ret Done Retd len concat ounwrap wshl wshr fsqrt fuel Some
     None option step fin r s v zwrap ziadd zisub zimul zineg zshamt Z left right inl inr pair fst snd S O nil cons xH xO xI N0 Npos
     Z0 Zpos Zneg eq_refl conj I opt_ltb nthN wT for_loop_rev checked_add obsearch_fst iteri_loop ofold push_at resize_with last_opt set_last setN
-    last_ e_ omap""".split())
+    last_ e_ omap max_opt clz copy_into tzcnt tz_pos""".split())
 
 
 # ------------------------------------------------------------------------------ item index with trait info
@@ -465,9 +518,9 @@ class Unit5(GL.Unit):
 class Parser5(Parser):
     def type(self):
         if self.accept("&"):
-            self.accept("mut")
             if self.at("'"):
-                self.fail("lifetime")
+                self.i += 2          # &'a T: the lifetime does not change the value
+            self.accept("mut")
             return self.type()
         if self.at("[") and True:
             # [T; K] or [T]
@@ -513,7 +566,7 @@ class Parser5(Parser):
                 return "f64"
             if name == "Self" and self.at("::", 1) and self.at("Item", 2):
                 self.i += 3
-                return ("struct", "T")
+                return ("struct", "Item" if getattr(self, "item_assoc", False) else "T")
             if name == "Self":
                 self.i += 1
                 return ("struct", "Self")
@@ -566,12 +619,17 @@ class Parser5(Parser):
                 self.i += 1
                 selfkind = "mut" if self.accept("mut") else "ref"
                 self.expect("self")
-            elif self.at("self"):
-                self.fail("by-value `self`")
+            elif self.at("self") or (self.at("mut") and self.at("self", 1)):
+                # `self` taken by value: read like `&self` (the value is not used again by the caller)
+                self.accept("mut")
+                self.i += 1
+                selfkind = "ref"
             else:
                 self.accept("mut")
                 p = self.ident()
                 self.expect(":")
+                if self.at("&") and self.at("mut", 1):
+                    self.mutparams = getattr(self, "mutparams", []) + [p]
                 params.append((p, self.type()))
             if not self.accept(","):
                 break
@@ -628,6 +686,14 @@ class Parser5(Parser):
                 body = self.loop_body()
                 self.accept(";")
                 stmts.append(("formut", xvar, lst, body))
+                continue
+            elif self.at("for") and self.peek(1).kind == "id" and self.at("in", 2) and self.peek(3).kind == "id" and self.at("{", 4):
+                # for x in L { }: a sequence taken by value (an `IntoIterator` argument is modelled as the list of its items)
+                xvar, lvar = self.peek(1).text, self.peek(3).text
+                self.i += 4
+                body = self.loop_body()
+                self.accept(";")
+                stmts.append(("foriter", None, xvar, ("var", lvar), body))
                 continue
             elif self.at("for") and (self.at("(", 1) or self.at("&", 1) or (self.peek(1).kind == "id" and self.at("in", 2)
                                                                              and self.for_over_iter(3))):
@@ -717,6 +783,10 @@ class Parser5(Parser):
                 self.accept(";")
                 if not self.at("}"):
                     self.fail("statement after `return`")
+            elif t.kind == "id" and t.text == "dbg" and self.at("!", 1) and self.at("(", 2):
+                # dbg!(..); as a statement: prints to stderr, no effect on any value
+                self.i = match_close(self.t, self.i + 2) + 1
+                self.expect(";")
             elif t.kind == "id" and self.at("!", 1) and t.text in ("debug_assert_eq", "assert_eq"):
                 self.i += 2
                 self.expect("(")
@@ -751,13 +821,14 @@ class Parser5(Parser):
                     op = self.peek().text
                     self.i += 1
                     stmts.append(("assign", e, op[:-1] or None, self.expr()))
-                    self.expect(";")
+                    if not self.at("}"):
+                        self.expect(";")
                 elif self.at("}"):
                     tail = e
                 elif e[0] in ("if", "block", "iflet"):
                     self.accept(";")
                     stmts.append(("expr", e))
-                elif e[0] == "mcall" and self.at(";"):
+                elif e[0] in ("mcall", "call") and self.at(";"):
                     self.i += 1
                     stmts.append(("call", e))
                 elif e[0] == "try" and self.at(";"):
@@ -812,7 +883,9 @@ class Parser5(Parser):
 
     def primary(self):
         t0 = self.peek()
-        if t0.kind == "id" and t0.text == "Self" and self.at("{", 1) and (self.peek(2).kind == "id" and (self.at(",", 3) or self.at(":", 3) or self.at("}", 3))):
+        if t0.kind == "id" and (t0.text == "Self" or (t0.text[:1].isupper() and not t0.text.isupper() and len(t0.text) > 1)) and self.at("{", 1) and \
+                (self.peek(2).kind == "id" and (self.at(",", 3) or (self.at(":", 3) and not self.at("::", 3)) or self.at("}", 3))):
+            sname = t0.text
             self.i += 2
             fields = []
             while not self.at("}"):
@@ -824,10 +897,13 @@ class Parser5(Parser):
                 if not self.accept(","):
                     break
             self.expect("}")
-            return ("structlit", "Self", fields)
+            return ("structlit", sname, fields)
         if t0.kind == "str":
             self.i += 1
             return ("str", t0.text)
+        if t0.kind == "id" and t0.text == "vec" and self.at("!", 1) and self.at("[", 2):
+            self.i += 2          # vec![a, b, ..] / vec![e; n]: read as the array literal
+            return self.primary()
         if t0.kind == "op" and t0.text == "[":
             # [e; n] (array repeat) or [a, b, ..]
             save = self.i
@@ -851,6 +927,38 @@ class Parser5(Parser):
             return ("closure", pat, self.expr())
         if t0.kind == "op" and t0.text == "||":
             self.fail("closure without parameters")
+        if self.at("if") and not self.at("let", 1):
+            # `if CONST {` / `if !CONST {` on a const generic bool of this monomorphisation: the dead arm is skipped
+            # unparsed (it may use constructs outside the subset), an empty block stands for it
+            j = self.i + 1
+            neg = False
+            if self.t[j].kind == "op" and self.t[j].text == "!":
+                neg, j = True, j + 1
+            cb = getattr(self, "cbools", {})
+            if self.t[j].kind == "id" and self.t[j].text in cb and self.t[j + 1].kind == "op" and self.t[j + 1].text == "{":
+                val = cb[self.t[j].text] != neg
+                cond = ("var", self.t[j].text) if not neg else ("un", "!", ("var", self.t[j].text))
+                self.i = j + 1
+
+                def arm(live):
+                    if live:
+                        return self.block()
+                    save = self.i
+                    try:
+                        return self.block()      # kept when it parses: its uses still constrain the types of locals
+                    except Unsupported:
+                        self.i = match_close(self.t, save) + 1
+                        return ("block", [], None)
+                th = arm(val)
+                el = None
+                if self.accept("else"):
+                    if self.at("if"):
+                        if val:
+                            self.fail("`else if` after a live const arm")
+                        el = ("block", [], self.primary())
+                    else:
+                        el = arm(not val)
+                return ("if", cond, th, el)
         if self.at("if") and self.at("let", 1):
             self.i += 2
             if not (self.at("Some") and self.at("(", 1)):
@@ -899,8 +1007,17 @@ class Parser5(Parser):
                             break
                 e = ("mcall", e, name, self.args()) if self.at("(") else ("field", e, name)
             elif self.accept("["):
-                e = ("index", e, self.expr())
-                self.expect("]")
+                if self.accept(".."):
+                    self.expect("]")          # x[..]: the whole sequence
+                    continue
+                a = self.expr()
+                if self.accept(".."):
+                    b = self.expr()
+                    self.expect("]")
+                    e = ("slicer", e, a, b)
+                else:
+                    e = ("index", e, a)
+                    self.expect("]")
             elif self.accept("?"):
                 e = ("try", e)
             else:
@@ -962,7 +1079,10 @@ class FnT5(FnTranslator):
         unit.cparams = self.cparams
         start = self.pick(text_unit, text_owner, fname, trait)
         p = Parser5(text_unit.toks, start, self.where, {})
+        p.cbools = {k: v for k, v in self.cparams.items() if isinstance(v, bool)}
+        p.item_assoc = "Item" in self.tsubst       # `Self::Item` of an iterator impl: the target names it
         _, self.selfkind, self.params, self.ret, self.body = p.fn()
+        self.mutparams = list(getattr(p, "mutparams", []))
         self.ret = self.sub_t(self.ret)
         self.params = [(n, self.sub_t(t)) for n, t in self.params]
         self.rec_params = {}
@@ -1048,6 +1168,10 @@ class FnT5(FnTranslator):
                 return ("struct", self.owner)
             if t[0] == "struct" and t[1] in self.tsubst:
                 v = self.tsubst[t[1]]
+                if v.startswith("["):
+                    return ("slice", v[1:-1])
+                if v in INT or v == "bool":
+                    return v
                 return v if v.startswith("@") else ("struct", v)
             if t[0] in ("array", "slice", "option"):
                 return (t[0], self.sub_t(t[1])) + tuple(t[2:])
@@ -1084,6 +1208,10 @@ class FnT5(FnTranslator):
             except Unsupported:
                 out.append((prefix + (fname,), ("opaque", fname)))   # a field outside the subset: may exist, must not be used
         return out
+
+    def model_leaves(self, t, unit):
+        """leaf_paths without the fields outside the subset (prefetch hints, phantom data)"""
+        return [(pp, tt) for pp, tt in self.leaf_paths(t, unit) if not (isinstance(tt, tuple) and tt[0] == "opaque")]
 
     def field_leaves(self, fname, fty, u, prefix):
         def rec(t):
@@ -1393,6 +1521,8 @@ class FnT5(FnTranslator):
         k = e[0]
         if k == "lit" and e[2] is None and isinstance(exp, str) and exp in SINT:
             return exp
+        if k == "var" and e[1] in env and isinstance(env[e[1]][1], tuple) and env[e[1]][1][0] == "recparam":
+            return ("record", env[e[1]][1][1], env[e[1]][1][2])
         if k == "field" and e[1][0] == "var" and e[1][1] in env and isinstance(env[e[1][1]][1], tuple) \
                 and env[e[1][1]][1][0] == "recparam":
             lists = env[e[1][1]][1][3]
@@ -1474,7 +1604,7 @@ class FnT5(FnTranslator):
         if k == "str":
             return "str"
         if k == "structlit":
-            return self.norm(("struct", self.owner), self.unit.rel)
+            return self.norm(("struct", self.owner if e[1] == "Self" else e[1]), self.unit.rel)
         if k == "array":
             if is_list(exp):
                 return exp
@@ -1515,12 +1645,16 @@ class FnT5(FnTranslator):
         if k == "call" and len(e[1]) == 2 and e[1][1] == "default" and not e[3] and self.default_struct(e[1][0]) is not None:
             st = self.default_struct(e[1][0])
             return self.norm(("struct", st[0]), st[1])
+        if k == "call" and len(e[1]) == 2 and e[1][1] in ("default", "new") and not e[3] and self.default_record(e[1][0]) is not None \
+                and (e[1][1] == "default" or self.is_default_new(e[1][0])):
+            st = self.default_record(e[1][0])
+            return self.norm(("struct", st[0]), st[1])
         if k == "lit" and exp == "@T":
             return None
         if k == "mcall" and e[2] == "as_" and not e[3]:
             rt = self.ty(e[1], None, env)
             if rt == "@T":
-                return "usize"
+                return exp if exp in INT else "usize"
             if rt in INT:
                 return "@T"
             self.fail("`.as_()` on %s" % (rt,))
@@ -1531,6 +1665,14 @@ class FnT5(FnTranslator):
         if k == "mcall" and self.soa_recv(e[1]) is not None:
             r, _ = self.soa_recv(e[1])
             return self.norm_ret(self.method_sig(r[2], r[3], e[2]))
+        if k == "call" and e[1] == ["std", "mem", "size_of"] and len(e[2]) == 1 and not e[3]:
+            return "usize"
+        if k == "mcall" and e[2] == "leading_zeros" and not e[3] and self.ty(e[1], None, env) == "@T":
+            return "u32"
+        if k == "mcall" and e[2] == "trailing_zeros" and not e[3] and self.ty(e[1], None, env) in INT:
+            return "u32"
+        if k == "mcall" and e[2] == "max" and not e[3] and e[1][0] == "mcall" and e[1][2] == "iter" and not e[1][3] and is_list(self.ty(e[1][1], None, env)):
+            return ("option", self.ty(e[1][1], None, env)[1])
         if k == "mcall":
             m = e[2]
             if m in ("count_ones", "leading_zeros", "wrapping_mul", "wrapping_add", "wrapping_sub"):
@@ -1596,6 +1738,14 @@ class FnT5(FnTranslator):
             if isinstance(e, tuple) and e and e[0] == "index" and e[2] == ("var", name):
                 found.append("usize")
                 return
+            if isinstance(e, tuple) and e and e[0] == "structlit":
+                for fname, fe in e[2]:
+                    if fe == ("var", name):
+                        ft = dict(self.fields_of(self.owner if e[1] == "Self" else e[1])[1]).get(fname)
+                        ft = self.norm(ft, self.unit.rel) if isinstance(ft, tuple) else ft
+                        if ft in INT or is_list(ft):
+                            found.append(ft)
+                            return
             if isinstance(e, tuple) and e and e[0] == "bin" and e[1] not in ("<<", ">>", "&&", "||"):
                 for a, b in ((e[2], e[3]), (e[3], e[2])):
                     if a[0] == "index" and a[1] == ("var", name):
@@ -1634,6 +1784,22 @@ class FnT5(FnTranslator):
                         if t in INT:
                             found.append(t)
                             return
+                        if t is None and b[0] == "field":
+                            # `x.f op name` with x of a type the walk could not determine (code outside the subset): when
+                            # every struct known here that has a field `f` gives it the same integer type, that type
+                            cands = set()
+                            units = [self.unit] + [self.world.unit(h) for (r, _), h in HOME.items() if r == self.unit.rel]
+                            for u_ in units:
+                                for sn in u_.structs5:
+                                    try:
+                                        for fn_, ft_ in u_.struct_fields(sn, self.where):
+                                            if fn_ == b[2]:
+                                                cands.add(ft_ if isinstance(ft_, str) else "?")
+                                    except Unsupported:
+                                        pass
+                            if len(cands) == 1 and next(iter(cands)) in INT:
+                                found.append(next(iter(cands)))
+                                return
             if isinstance(e, tuple) and e and e[0] == "block":
                 walk(e[1], dict(env))
                 if e[2] is not None:
@@ -1674,11 +1840,18 @@ class FnT5(FnTranslator):
                             return
                     expr(s[1], env)
                     expr(s[3], env)
+                elif s[0] == "call" and s[1][0] == "call":
+                    expr(s[1][3], env)
                 elif s[0] == "call":
                     if s[1][2] == "push" and s[1][1] == ("var", name) and len(s[1][3]) == 1:
                         t = tyq(s[1][3][0], env)
                         if t is not None:
                             found.append(("slice", t))
+                            return
+                    if s[1][2] == "push" and s[1][1][0] == "index" and s[1][1][1] == ("var", name) and len(s[1][3]) == 1:
+                        t = tyq(s[1][3][0], env)
+                        if t is not None:
+                            found.append(("slice", ("slice", t)))
                             return
                     expr(s[1][3], env)
                 elif s[0] == "while":
@@ -1705,6 +1878,8 @@ class FnT5(FnTranslator):
         env = dict(env)
         env.pop(name, None)
         walk(stmts, env)
+        if not found and tail is not None:
+            expr(tail, env)
         if not found and getattr(self, "body_full", None) is not None:
             # types are inferred before monomorphisation: the code pruned for this value of the const generic
             # parameters still constrains the variable
@@ -1731,7 +1906,7 @@ class FnT5(FnTranslator):
                 s = (s[0], pat, a2, init)
                 ann = a2
         if ann is None and init is not None and init[0] == "array" and isinstance(pat, str) and rest is not None \
-                and self.ty(init, None, env) is None:
+                and (self.ty(init, None, env) is None or "?" in repr(self.ty(init, None, env))):
             t = self.later_type(pat, rest, env)
             if not is_list(t):
                 self.fail("element type of the array `%s`" % pat)
@@ -1847,6 +2022,8 @@ class FnT5(FnTranslator):
             key = (u.rel if u else self.unit.rel, None, segs[0])
         elif len(segs) == 2:
             owner = self.owner if segs[0] == "Self" else segs[0]
+            if owner in self.tsubst and not self.tsubst[owner].startswith(("@", "[")):
+                owner = self.tsubst[owner]       # a type parameter of the monomorphisation (S::new, RS::from)
             u = self.world.home(self.unit.rel, owner)
             key = (u.rel if u else self.unit.rel, owner, segs[1])
         else:
@@ -1859,6 +2036,9 @@ class FnT5(FnTranslator):
     # ---- expressions
     def emit(self, e, exp, cx):
         k, env = e[0], cx.env
+        if k == "var" and e[1] in env and isinstance(env[e[1]][1], tuple) and env[e[1]][1][0] == "recparam":
+            # a struct value (parameter or local) as a whole: the tuple of its fields
+            return "(" + ", ".join(x[0] for x in env[e[1]][1][3].values()) + ")", True
         if k == "field" and e[1][0] == "var" and e[1][1] in env and isinstance(env[e[1][1]][1], tuple) \
                 and env[e[1][1]][1][0] == "recparam":
             lists = env[e[1][1]][1][3]
@@ -1906,18 +2086,44 @@ class FnT5(FnTranslator):
         if k == "structlit":
             given = dict(e[2])
             vals = []
-            for fname, fty in self.fields_of(self.owner)[1]:
+            sname = self.owner if e[1] == "Self" else e[1]
+            su, fl = self.fields_of(sname)
+            leaves = self.model_leaves(("struct", sname), su)
+            for fname, fty in fl:
+                mine = [(pp, tt) for pp, tt in leaves if pp[0] == fname]
                 if fname not in given:
                     self.fail("struct literal without the field `%s`" % fname)
+                if not mine:
+                    continue          # a field outside the subset (prefetch hints): not part of the value's model
                 fe = given[fname]
-                if isinstance(fty, tuple) and fty[0] == "struct" and self.is_record(fty):
-                    if not (fe[0] == "var" and fe[1] in env and isinstance(env[fe[1]][1], tuple) and env[fe[1]][1][0] == "recparam"):
-                        self.fail("struct-valued field `%s` of a struct literal (only a struct parameter moved in)" % fname)
-                    lists = env[fe[1]][1][3]
-                    for pp, _ in self.leaf_paths(fty, self.unit):
-                        vals.append(lists[pp[0]][0])
+                ent = env.get(fe[1]) if fe[0] == "var" else None
+                if (fe == ("var", "None") and "None" not in env) or (ent is not None and ent[1] == ("noneconst",)):
+                    if not all(isinstance(tt, tuple) and tt[0] == "option" for _, tt in mine):
+                        self.fail("`None` for the field `%s`" % fname)
+                    vals += ["None"] * len(mine)
+                elif ent is not None and isinstance(ent[1], tuple) and ent[1][0] in ("recparam", "soalocal"):
+                    got = list(ent[1][3].values())
+                    if len(got) != len(mine):
+                        self.fail("struct-valued field `%s` of a struct literal" % fname)
+                    vals += [x[0] for x in got]
+                elif len(mine) > 1 or len(mine[0][0]) > 1:
+                    if fe[0] == "array" and is_list(fty):
+                        # vec![e1, e2, ..] of several-field structs: one list per field
+                        cols = []
+                        for el in fe[1]:
+                            t = self.record_value_type_nested(el, env)
+                            if t is None:
+                                self.fail("element of the struct-valued field `%s`" % fname)
+                            v, pure = self.emit(el, t, cx)
+                            tmp = [self.fresh() for _ in mine]
+                            cx.lines.append(("let '(%s) := %s in" if pure else "let! (%s) := %s in") % (", ".join(tmp), v))
+                            cols.append(tmp)
+                        for j in range(len(mine)):
+                            vals.append("[" + "; ".join(c[j] for c in cols) + "]")
+                    else:
+                        self.fail("struct-valued field `%s` of a struct literal (only a struct variable moved in)" % fname)
                 else:
-                    nt = self.norm(fty, self.unit.rel)
+                    nt = mine[0][1]
                     self.need(fe, nt, env, nt)
                     vals.append(self.val(fe, nt, cx))
             return ("(" + ", ".join(vals) + ")") if len(vals) != 1 else vals[0], True
@@ -2006,11 +2212,14 @@ class FnT5(FnTranslator):
             return "[]", True
         if k == "call" and len(e[1]) == 2 and e[1][1] == "default" and not e[3] and self.default_struct(e[1][0]) is not None:
             return self.default_elem(self.default_struct(e[1][0])), True
+        if k == "call" and len(e[1]) == 2 and e[1][1] in ("default", "new") and not e[3] and self.default_record(e[1][0]) is not None \
+                and (e[1][1] == "default" or self.is_default_new(e[1][0])):
+            return "(" + ", ".join(self.default_leaves(self.default_record(e[1][0]))) + ")", True
         if k == "mcall" and e[2] == "as_" and not e[3]:
             rt = self.ty(e[1], None, env)
             a = self.val(e[1], None, cx)
             if rt == "@T":
-                return "%s mod 2 ^ 64" % paren(a), True
+                return "%s mod 2 ^ %d" % (paren(a), INT[exp] if exp in INT else 64), True
             self.needs_w = True
             return "%s mod 2 ^ wT" % paren(a), True
         if k == "mcall" and e[2] == "checked_add" and len(e[3]) == 1 and self.ty(e[1], None, env) in INT:
@@ -2081,6 +2290,23 @@ class FnT5(FnTranslator):
             if t not in INT:
                 self.fail("sqrt of %s" % (t,))
             return app("fsqrt", self.val(x, None, cx)), True
+        if k == "call" and e[1] == ["std", "mem", "size_of"] and len(e[2]) == 1 and not e[3]:
+            t = self.sub_t(e[2][0])
+            if t == "@T":
+                self.needs_w = True
+                return "wT / 8", True
+            if t in INT:
+                return str(INT[t] // 8), True
+            self.fail("size_of::<%s>()" % (t,))
+        if k == "mcall" and e[2] == "trailing_zeros" and not e[3] and self.ty(e[1], None, env) in INT:
+            t = self.ty(e[1], None, env)
+            return app("tzcnt", str(INT[t]), self.val(e[1], t, cx)), True
+        if k == "mcall" and e[2] == "leading_zeros" and not e[3] and self.ty(e[1], None, env) == "@T":
+            self.needs_w = True
+            return app("clz", "wT", self.val(e[1], None, cx)), True
+        if k == "mcall" and e[2] == "max" and not e[3] and e[1][0] == "mcall" and e[1][2] == "iter" and not e[1][3] and is_list(self.ty(e[1][1], None, env)):
+            # L.iter().max(): the largest element, None on an empty sequence
+            return app("max_opt", self.val(e[1][1], None, cx)), True
         if k == "mcall":
             m = e[2]
             if m in ("count_ones", "leading_zeros", "wrapping_mul", "wrapping_add", "wrapping_sub"):
@@ -2124,7 +2350,30 @@ class FnT5(FnTranslator):
                 return app("concat", self.val(e[3][0], None, cx)), True
             if (len(segs) == 2 and segs[0] in INT and segs[1] in ("zero", "one")) or segs[-1] == "size_of":
                 return super().emit(e, exp, cx)
-            return self.emit_call5(self.static_sig(segs), None, e[3], cx)
+            sig = self.static_sig(segs)
+            mp = getattr(sig, "mutparams", [])
+            if mp and sig.ret != "unit":
+                # f(&mut a, ..) used for its value: the new values of the `&mut` arguments are bound back to the local
+                # variables they name (or dropped when the argument is a temporary), the result is the value
+                call, _ = self.emit_call5(sig, None, e[3], cx)
+                names = []
+                for i in mp:
+                    a = e[3][i]
+                    while a[0] == "ref":
+                        a = a[1]
+                    if a[0] == "var" and a[1] in cx.env and cx.env[a[1]][0] is not None and cx.env[a[1]][2] == cx.depth:
+                        names.append(cx.env[a[1]][0])
+                    else:
+                        names.append("_")
+                rt = self.norm_ret(sig)
+                if isinstance(rt, tuple) and rt[0] == "record":
+                    res = [self.fresh() for _ in self.model_leaves(("struct", rt[1]), self.world.unit(rt[2]))]
+                    cx.lines.append("let! (%s, (%s)) := %s in" % (", ".join(names), ", ".join(res), call))
+                    return "(" + ", ".join(res) + ")", True
+                r = self.fresh()
+                cx.lines.append("let! (%s, %s) := %s in" % (", ".join(names), r, call))
+                return r, True
+            return self.emit_call5(sig, None, e[3], cx)
         return super().emit(e, exp, cx)
 
     def block_val(self, blk, t, cx):
@@ -2205,7 +2454,19 @@ class FnT5(FnTranslator):
         opt = False
         if x[0] == "mcall" and x[2] == "unwrap" and not x[3] and x[1][0] == "mcall" and x[1][2] == "as_ref" and not x[1][3]:
             x, opt = x[1][1], True
+        if x[0] == "var" and x[1] in cx.env and isinstance(cx.env[x[1]][1], tuple) and cx.env[x[1]][1][0] == "recparam" and not opt:
+            if cx.env[x[1]][1][1] != pt[1]:
+                self.fail("argument of struct type %s" % pt[1])
+            return [ent[0] for ent in cx.env[x[1]][1][3].values()]
         names = self.chain(x) if x[0] == "field" else None
+        if not names and not opt:
+            # any other expression of that struct type: evaluated, its fields bound to fresh names
+            t = self.record_value_type(x, cx.env)
+            if t is not None and t[1] == pt[1]:
+                v, pure = self.emit(x, t, cx)
+                tmp = [self.fresh() for _ in self.leaf_paths(("struct", t[1]), self.world.unit(t[2]))]
+                cx.lines.append(("let '(%s) := %s in" if pure else "let! (%s) := %s in") % (", ".join(tmp), v))
+                return tmp
         if not names:
             self.fail("argument of struct type %s (only a struct field of self)" % pt[1])
         r = self.resolve_chain(names)
@@ -2405,13 +2666,39 @@ class FnT5(FnTranslator):
                     expr(s[3], declared)
                 elif s[0] == "expr":
                     expr(s[1], declared)
+                elif s[0] == "call" and s[1][0] == "call":
+                    try:
+                        sig = self.static_sig(s[1][1])
+                    except Unsupported:
+                        sig = None
+                    for i in (getattr(sig, "mutparams", []) if sig else []):
+                        a = s[1][3][i]
+                        while a[0] == "ref":
+                            a = a[1]
+                        if a[0] == "var" and a[1] not in declared and a[1] in env and a[1] not in out:
+                            out.append(a[1])
+                    expr(s[1][3], declared)
                 elif s[0] == "call":
                     tgt = s[1][1]
                     m = s[1][2]
+                    if tgt[0] == "slicer" and tgt[1][0] == "var" and m == "copy_from_slice":
+                        n = tgt[1][1]
+                        if n not in declared and n in env and n not in out:
+                            out.append(n)
                     if tgt[0] == "mcall" and tgt[2] == "unwrap" and tgt[1][0] == "mcall" and tgt[1][2] == "last_mut" and tgt[1][1][0] == "var":
                         n = tgt[1][1][1]
                         if n not in declared and n in env and n not in out:
                             out.append(n)
+                    if tgt[0] == "var" and tgt[1] in env and tgt[1] not in declared and isinstance(env[tgt[1]][1], tuple) and env[tgt[1]][1][0] == "soalocal" and m == "push":
+                        for pp in env[tgt[1]][1][3]:
+                            n = "%s.%s" % (tgt[1], ".".join(pp))
+                            if n in env and n not in out:
+                                out.append(n)
+                    if tgt[0] == "var" and tgt[1] in env and tgt[1] not in declared and isinstance(env[tgt[1]][1], tuple) and env[tgt[1]][1][0] == "recparam":
+                        for f in env[tgt[1]][1][3]:
+                            n = "%s.%s" % (tgt[1], f)
+                            if n in env and n not in out:
+                                out.append(n)
                     if tgt == ("self",) and self.is_mut:
                         # a call of another `&mut self` method: every field may change
                         for n in env:
@@ -2421,7 +2708,7 @@ class FnT5(FnTranslator):
                         tgt = tgt[1]
                     if tgt[0] == "var" and (m in ("push", "resize_with") or tgt[1] in self.elem_nominal):
                         n = tgt[1]
-                        if n not in declared and n in env and n not in out:
+                        if n not in declared and n in env and n not in out and not (isinstance(env[n][1], tuple) and env[n][1][0] in ("soalocal", "recparam")):
                             out.append(n)
                     expr(s[1][3], declared)
                 elif s[0] == "while":
@@ -2535,6 +2822,32 @@ class FnT5(FnTranslator):
                 lists = self.unwrap_osoa(r, cx)
                 cx.env[s[1]] = (None, ("soaval", r, lists), cx.depth)
                 self.nominal.pop(s[1], None)
+            elif k == "let" and isinstance(s[1], str) and s[3] is not None and s[3][0] == "call" and s[3][1] in (["Vec", "with_capacity"], ["Vec", "new"]) \
+                    and s[2] is None and not s[3][2] and not self.mentions(s[1], (rest, tail)):
+                pass          # a Vec that the code kept for this monomorphisation never touches
+            elif k == "let" and isinstance(s[1], str) and s[2] is None and s[3] == ("var", "None") and "None" not in cx.env \
+                    and not self.assigns(s[1], (rest, tail)):
+                # `let mut x = None;` never assigned in the code kept for this monomorphisation: the constant None
+                cx.env[s[1]] = (None, ("noneconst",), cx.depth)
+            elif k == "let" and isinstance(s[1], str) and s[3] is not None and s[3][0] == "call" and s[3][1] in (["Vec", "with_capacity"], ["Vec", "new"]) \
+                    and ((len(s[3][2]) == 1 and self.soa_local_type(s[3][2][0]) is not None) or
+                         (not s[3][2] and s[2] is None and self.pushed_record_type(s[1], (rest, tail)) is not None)):
+                # a local Vec of several-field structs: one list per field of the struct
+                st = self.soa_local_type(s[3][2][0]) if s[3][2] else self.pushed_record_type(s[1], (rest, tail))
+                lists = {}
+                for pp, tt in self.model_leaves(("struct", st[1]), self.world.unit(st[2])):
+                    cn = "%s_%s" % (s[1], "_".join(pp))
+                    while cn in GL.RESERVED or cn in self.sigs_coq or cn in self.field_coq.values():
+                        cn += "_"
+                    cx.env["%s.%s" % (s[1], ".".join(pp))] = (cn, ("slice", tt), cx.depth)
+                    lists[pp] = (cn, ("slice", tt))
+                    L.append("let %s := [] in" % cn)
+                cx.env[s[1]] = (None, ("soalocal", st[1], st[2], lists), cx.depth)
+            elif k == "let" and isinstance(s[1], str) and s[3] is not None and self.record_value_type(s[3], cx.env) is not None:
+                # a local of a several-field struct type: one variable per field
+                t = self.record_value_type(s[3], cx.env)
+                v, pure = self.emit(s[3], t, cx)
+                self.bind_record(s[1], t, cx, v, pure)
             elif k == "let":
                 t = self.let_types(s, cx.env, lambda a, b: None, (rest, tail, flow.exp))
                 v, pure = self.emit(s[3], t, cx)
@@ -2649,6 +2962,8 @@ class FnT5(FnTranslator):
                 if self.may_leave(th) or (el is not None and self.may_leave(el)):
                     self.fail("`if` statement that leaves (return/break) on some paths only")
                 self.cond_assign5(s[1], cx)
+            elif k == "call" and s[1][0] == "call":
+                self.free_call_stmt(s[1], cx)
             elif k == "call":
                 self.call_stmt(s[1], cx)
             elif k == "expr" and s[1][0] == "block":
@@ -2672,6 +2987,114 @@ class FnT5(FnTranslator):
         if u is not None and name in u.structs5 and len(u.struct_fields(name, self.where)) == 1:
             return (name, u.rel)
         return None
+
+    def is_default_new(self, name):
+        """`fn new() -> Self { Self::default() }`"""
+        u = self.world.home(self.unit.rel, name)
+        c = u.fns5.get((name, "new"), []) if u is not None else []
+        if len(c) != 1:
+            return False
+        toks = [t.text for t in u.toks[c[0][0]:c[0][0] + 16]]
+        return "".join(toks).startswith("fnnew()->Self{Self::default()}")
+
+    def default_record(self, name):
+        """(struct, rel) when `name` is a several-field struct with a derived Default (no `fn default` of its own)"""
+        u = self.world.home(self.unit.rel, name)
+        if u is None or name not in u.structs5 or len(u.struct_fields(name, self.where)) < 2 or u.fns5.get((name, "default")):
+            return None
+        return (name, u.rel)
+
+    def default_leaves(self, st):
+        out = []
+        for _, tt in self.leaf_paths(("struct", st[0]), self.world.unit(st[1])):
+            if is_list(tt):
+                out.append("[]")
+            elif tt in INT or tt == "@T":
+                out.append("0")
+            elif tt == "bool":
+                out.append("false")
+            else:
+                self.fail("default value of a field of type %s" % (tt,))
+        return out
+
+    def record_value_type(self, e, env):
+        try:
+            t = self.ty(e, None, env)
+        except Unsupported:
+            return None
+        if isinstance(t, tuple) and t[0] == "record" and all(len(pp) == 1 for pp, _ in self.leaf_paths(("struct", t[1]), self.world.unit(t[2]))):
+            return t
+        return None
+
+    def assigns(self, name, x):
+        if isinstance(x, tuple) and x and x[0] == "assign":
+            tg = x[1]
+            while tg[0] in ("index", "field", "un"):
+                tg = tg[1] if tg[0] != "un" else tg[2]
+            if tg == ("var", name):
+                return True
+        if isinstance(x, (tuple, list)):
+            return any(self.assigns(name, y) for y in x)
+        return False
+
+    def pushed_record_type(self, name, x):
+        """the several-field struct type of `name.push(S::f(..))` found in x, if any"""
+        if isinstance(x, tuple) and len(x) == 4 and x[0] == "mcall" and x[1] == ("var", name) and x[2] == "push" and len(x[3]) == 1 \
+                and isinstance(x[3][0], tuple) and x[3][0][0] == "call":
+            try:
+                sig = self.static_sig(x[3][0][1])
+                rt = self.norm_ret(sig)
+            except Unsupported:
+                return None
+            return rt if isinstance(rt, tuple) and rt[0] == "record" else None
+        if isinstance(x, (tuple, list)):
+            for y in x:
+                r = self.pushed_record_type(name, y)
+                if r is not None:
+                    return r
+        return None
+
+    def mentions(self, name, x):
+        if isinstance(x, tuple) and len(x) == 2 and x[0] == "var" and x[1] == name:
+            return True
+        if isinstance(x, (tuple, list)):
+            return any(self.mentions(name, y) for y in x)
+        return False
+
+    def soa_local_type(self, t):
+        t = self.sub_t(t)
+        if isinstance(t, tuple) and t[0] == "struct":
+            try:
+                n = self.norm(t, self.unit.rel)
+            except Unsupported:
+                return None
+            if isinstance(n, tuple) and n[0] == "record":
+                return n
+        return None
+
+    def record_value_type_nested(self, e, env):
+        try:
+            t = self.ty(e, None, env)
+        except Unsupported:
+            return None
+        return t if isinstance(t, tuple) and t[0] == "record" else None
+
+    def bind_record(self, name, t, cx, v, pure):
+        lists, names = {}, []
+        raw = dict(self.fields_of(t[1], t[2])[1])
+        for pp, tt in self.leaf_paths(("struct", t[1]), self.world.unit(t[2])):
+            cn = "%s_%s" % (name, pp[0])
+            while cn in GL.RESERVED or cn in self.sigs_coq or cn in self.field_coq.values():
+                cn += "_"
+            cx.env["%s.%s" % (name, pp[0])] = (cn, tt, cx.depth)
+            lists[pp[0]] = (cn, tt, raw.get(pp[0]), t[2])
+            names.append(cn)
+        cx.env[name] = (None, ("recparam", t[1], t[2], lists), cx.depth)
+        self.nominal.pop(name, None)
+        if pure:
+            cx.lines.append("let '(%s) := %s in" % (", ".join(names), v))
+        else:
+            cx.lines.append("let! (%s) := %s in" % (", ".join(names), v))
 
     def default_elem(self, st):
         """Default::default() of a one-field struct whose field is an integer array: the list of its zeros"""
@@ -2698,9 +3121,40 @@ class FnT5(FnTranslator):
             return self.osoa_unwrap(e[1]), e[2]
         return None
 
+    def free_call_stmt(self, e, cx):
+        """f(a, b);  with f a translated function whose `&mut` parameters are local variables here"""
+        _, segs, gens, args = e
+        sig = self.static_sig(segs)
+        mp = getattr(sig, "mutparams", [])
+        if not mp or sig.ret != "unit":
+            self.fail("call of `%s` as a statement" % "::".join(segs))
+        names = []
+        for i in mp:
+            a = args[i]
+            while a[0] == "ref":
+                a = a[1]
+            if a[0] != "var" or a[1] not in cx.env or cx.env[a[1]][0] is None:
+                self.fail("`&mut` argument of `%s` (only a local variable)" % "::".join(segs))
+            if cx.env[a[1]][2] != cx.depth:
+                self.fail("call of `%s` mutating `%s` from a nested block" % ("::".join(segs), a[1]))
+            names.append(cx.env[a[1]][0])
+        call, _ = self.emit_call5(sig, None, args, cx)
+        cx.lines.append("let! %s := %s in" % (self.tuple_pat(names), call))
+
     def call_stmt(self, e, cx):
         """`v.push(x);` on a local Vec, `recv.prefetch_*(args);` (no effect)"""
         _, recv, m, args = e
+        if m == "copy_from_slice" and recv[0] == "slicer" and recv[1][0] == "var" and recv[1][1] in cx.env and is_list(cx.env[recv[1][1]][1]) and len(args) == 1:
+            # dst[a..b].copy_from_slice(src)
+            coq, t, depth = cx.env[recv[1][1]]
+            if depth != cx.depth:
+                self.fail("copy into `%s` from a nested block" % recv[1][1])
+            self.need(recv[2], "usize", cx.env, "usize"), self.need(recv[3], "usize", cx.env, "usize")
+            av, bv = self.val(recv[2], "usize", cx), self.val(recv[3], "usize", cx)
+            self.need(args[0], t, cx.env)
+            sv = self.val(args[0], t, cx)
+            cx.lines.append("let! %s := copy_into %s %s %s %s in" % (coq, paren(coq), paren(av), paren(bv), paren(sv)))
+            return
         if m == "push" and recv[0] == "var" and recv[1] in cx.env and is_list(cx.env[recv[1]][1]) and len(args) == 1:
             coq, t, depth = cx.env[recv[1]]
             if depth != cx.depth:
@@ -2724,7 +3178,21 @@ class FnT5(FnTranslator):
             v = self.val(args[0], t[1][1], cx)
             cx.lines.append("let! %s := push_at %s %s %s in" % (coq, paren(coq), paren(iv), paren(v)))
             return
-        if m == "shrink_to_fit" and not args and recv[0] == "var" and recv[1] in cx.env and is_list(cx.env[recv[1]][1]):
+        if m == "shrink_to_fit" and not args and recv[0] == "var" and recv[1] in cx.env and \
+                (is_list(cx.env[recv[1]][1]) or (isinstance(cx.env[recv[1]][1], tuple) and cx.env[recv[1]][1][0] == "soalocal")):
+            return
+        if m == "push" and recv[0] == "var" and recv[1] in cx.env and isinstance(cx.env[recv[1]][1], tuple) and cx.env[recv[1]][1][0] == "soalocal" and len(args) == 1:
+            sl = cx.env[recv[1]][1]
+            t = self.record_value_type_nested(args[0], cx.env)
+            if t is None or t[1] != sl[1]:
+                self.fail("push to `%s` of a value of type %s" % (recv[1], t))
+            v, pure = self.emit(args[0], t, cx)
+            tmp = [self.fresh() for _ in sl[3]]
+            cx.lines.append(("let '(%s) := %s in" if pure else "let! (%s) := %s in") % (", ".join(tmp), v))
+            for (pp, (cn, _)), tv in zip(sl[3].items(), tmp):
+                if cx.env["%s.%s" % (recv[1], ".".join(pp))][2] != cx.depth:
+                    self.fail("push to `%s` from a nested block" % recv[1])
+                cx.lines.append("let %s := %s ++ [%s] in" % (cn, cn, tv))
             return
         if recv[0] == "mcall" and recv[2] == "unwrap" and not recv[3] and recv[1][0] == "mcall" and recv[1][2] == "last_mut" \
                 and not recv[1][3] and recv[1][1][0] == "var" and recv[1][1][1] in self.elem_nominal and recv[1][1][1] in cx.env:
@@ -2745,6 +3213,24 @@ class FnT5(FnTranslator):
             cx.lines.append("let! %s := (match last_opt %s with\n  | Some last_ => let! e_ := %s in Val (set_last %s e_)\n  | None => Fault Panic\n  end) in"
                             % (coq, coq, app(sig.coq, "last_", *vs), coq))
             return
+        if recv[0] == "var" and recv[1] in cx.env and isinstance(cx.env[recv[1]][1], tuple) and cx.env[recv[1]][1][0] == "recparam" \
+                and ("%s.%s" % (recv[1], next(iter(cx.env[recv[1]][1][3])))) in cx.env:
+            rp = cx.env[recv[1]][1]
+            sig = self.method_sig(rp[1], rp[2], m)
+            if sig.selfkind == "mut":
+                if sig.ret != "unit":
+                    self.fail("`&mut self` method with a result called as a statement")
+                if [tuple(p) if not isinstance(p, str) else (p,) for p in sig.fields] != [(f,) for f in rp[3]]:
+                    self.fail("call of `%s.%s(..)` (fields of the callee)" % (recv[1], m))
+                call, _ = self.emit_call5(sig, recv, args, cx, allow_mut=True)
+                names = []
+                for f in rp[3]:
+                    coq, t, depth = cx.env["%s.%s" % (recv[1], f)]
+                    if depth != cx.depth:
+                        self.fail("call of `%s.%s(..)` from a nested block" % (recv[1], m))
+                    names.append(coq)
+                cx.lines.append("let! %s := %s in" % (self.tuple_pat(names), call))
+                return
         if recv == ("self",) and self.is_mut:
             sig = self.method_sig(self.owner, self.unit.rel, m)
             if sig.selfkind == "mut":
@@ -2938,6 +3424,13 @@ class FnT5(FnTranslator):
         elif s[0] == "foriter":
             _, ivar, xvar, lexpr, _ = s
             tl = self.ty(lexpr, None, cx.env)
+            if isinstance(tl, tuple) and tl[0] == "record" and tl[1] == "QVector" and ivar is None:
+                # for c in qv.iter(): the iterator's `next` is `qv.get(i)` for i = 0, 1, .. until None, and `get` is None
+                # exactly from `len()` on (both texts are checked against the source): the symbols at 0 .. len()
+                self.check_qv_iter_contract()
+                s2 = ("for", "i_", ("lit", 0, None, "0"), ("mcall", lexpr, "len", []), False,
+                      ("block", [("let", xvar, None, ("mcall", lexpr, "get_unchecked", [("var", "i_")]))] + list(body[1]), None))
+                return self.loop(s2, rest, tail, cx, flow)
             if not is_list(tl):
                 self.fail("`for` over a value of type %s" % (tl,))
             lv = self.val(lexpr, None, cx)
@@ -2994,6 +3487,26 @@ class FnT5(FnTranslator):
         out.append("end")
         return out
 
+    QV_ITER_CONTRACT = {
+        ("QVectorIterator", "next"): "{letqv=self.qv.as_ref();self.i+=1;qv.get(self.i-1)}",
+        ("QVector", "iter"): "{QVectorIterator{i:0,qv:self}}",
+        ("QVector", "get"): "{ifi>=self.position>>1{returnNone;}unsafe{Some(self.get_unchecked(i))}}",
+    }
+
+    def check_qv_iter_contract(self):
+        u = self.world.unit("src/qvector/mod.rs")
+        for (owner, fn), want in self.QV_ITER_CONTRACT.items():
+            c = u.fns5.get((owner, fn), [])
+            if len(c) != 1:
+                self.fail("iteration over a QVector (`%s::%s` not found)" % (owner, fn))
+            j = c[0][0]
+            while not (u.toks[j].kind == "op" and u.toks[j].text == "{"):
+                j += 1
+            k2 = match_close(u.toks, j)
+            got = "".join(t.text for t in u.toks[j:k2 + 1])
+            if got != want:
+                self.fail("iteration over a QVector: `%s::%s` is no longer `%s` (found `%s`)" % (owner, fn, want, got))
+
     def infer_index_var(self, x, body):
         """type of a `for` variable whose range is made of unsuffixed literals: usize when it is used as an index"""
         found = []
@@ -3037,19 +3550,42 @@ class FnT5(FnTranslator):
             for pp in self.paths:
                 cx.env["self." + ".".join(pp)] = (self.path_coq[pp], self.path_ty[pp], 0)
             flow0 = MutFlow(rett, [("self." + ".".join(pp)) for pp in self.paths])
+        elif self.mutparams:
+            # `&mut` parameters: the function returns their new values (followed by its own result if it has one)
+            if any(pn not in cx.env or cx.env[pn][0] is None for pn in self.mutparams):
+                self.fail("`&mut` parameter of a struct type")
+            flow0 = MutFlow(rett, list(self.mutparams))
         else:
             flow0 = FnFlow(rett)
+        if isinstance(flow0, MutFlow) and self.body[2] is not None and self.body[2][0] == "if" and self.body[2][3] is not None \
+                and (self.body[2][2][1] or self.body[2][3][1]):
+            # a final `if` whose arms update the state before giving the result: each arm ends with `return`
+            def rets(b):
+                if b[2] is not None and b[2][0] == "if" and b[2][3] is not None:
+                    return ("block", list(b[1]) + [("expr", ("if", b[2][1], rets(b[2][2]), rets(b[2][3])))], None)
+                if b[2] is None:
+                    self.fail("final `if` arm without a value")
+                return ("block", list(b[1]) + [("return", b[2])], None)
+            t = self.body[2]
+            self.body = ("block", list(self.body[1]) + [("expr", ("if", t[1], rets(t[2]), rets(t[3])))], None)
         lines = self.seq(self.body[1], self.body[2], cx, flow0)
         if "@T" in repr(ptys) or "@T" in repr(rett) or any("@T" in repr(self.path_ty[p]) for p in self.paths):
             self.needs_w = True
         binders = (["(fuel : nat)"] if self.needs_fuel else []) + (["(wT : N)"] if self.needs_w else []) + \
             ["(%s : %s)" % (self.path_coq[p], coq_type5(self.path_ty[p])) for p in self.paths] + \
             ["(%s : %s)" % (n, coq_type5(t)) for n, t in zip(names, ptys)]
-        if isinstance(rett, tuple) and rett[0] == "record":
+        if isinstance(rett, tuple) and rett[0] == "record" and not self.mutparams:
             # a struct with several fields is returned as the tuple of its fields, in declaration order
-            rcoq = " * ".join(paren(coq_type5(tt)) for _, tt in self.leaf_paths(("struct", rett[1]), self.world.unit(rett[2])))
+            rcoq = " * ".join(paren(coq_type5(tt)) for _, tt in self.model_leaves(("struct", rett[1]), self.world.unit(rett[2])))
         elif self.is_mut:
             parts = [paren(coq_type5(self.path_ty[pp])) for pp in self.paths] + ([paren(coq_type5(rett))] if rett != "unit" else [])
+            rcoq = " * ".join(parts)
+        elif self.mutparams:
+            if isinstance(rett, tuple) and rett[0] == "record":
+                rc = "(" + " * ".join(paren(coq_type5(tt)) for _, tt in self.model_leaves(("struct", rett[1]), self.world.unit(rett[2]))) + ")"
+            else:
+                rc = paren(coq_type5(rett))
+            parts = [paren(coq_type5(cx.env[pn][1])) for pn in self.mutparams] + ([rc] if rett != "unit" else [])
             rcoq = " * ".join(parts)
         else:
             rcoq = coq_type5(rett)
@@ -3062,6 +3598,7 @@ class FnT5(FnTranslator):
             sparams.append((pn, nt))
         sig = Sig(self.coq, self.selfkind, sparams, rett, list(self.paths))
         sig.fuel, sig.rel, sig.wparam = self.needs_fuel, self.unit.rel, self.needs_w
+        sig.mutparams = [i for i, (pn, _) in enumerate(self.params) if pn in self.mutparams]
         return "\n".join(out) + "\n" + text + ".\n", sig
 
 
@@ -3137,7 +3674,13 @@ class LoopFlow:
         if self.fnflow is None:
             tr.fail("`return` in a loop inside a conditional assignment / value block")
         if isinstance(self.fnflow, MutFlow):
-            tr.fail("`return` inside a loop of a `&mut self` method")
+            # the values of the fields at this point, then the result
+            exp = self.fnflow.exp
+            if exp == "unit":
+                tr.fail("`return` with a value in a unit method")
+            v = tr.val(e, exp, cx)
+            tr.need(e, exp, cx.env, exp)
+            return ["Val (Ret (%s))" % ", ".join(self.fnflow.leaves(tr, cx) + [v])]
         exp = self.fnflow.exp
         v = tr.val(e, exp, cx)
         tr.need(e, exp, cx.env, exp)
@@ -3240,11 +3783,30 @@ From QwtModel Require Import ListX Loops SelTable Words%s.
 BV_GROUP_COQ = {"g_get_bit_slice", "g_get_bits_slice"}     # BitVectorMut::get_bit_slice belongs to the BitVector accessors (group bv)
 
 
+QWTNEW_COQ = ("g_qwt256_new", "g_qwt512_new", "g_qwt256_from_vec", "g_qwt512_from_vec")
+
+
 def in_group(group, owners_g, owner, coq):
+    if group == "qwt":
+        return coq not in QWTNEW_COQ
+    if group == "wt":
+        return coq != "g_wt_new"
     if owners_g is None:
         return True
     if group == "bv":
         return (owner in ("DataLine", "BitVector") and coq != "g_bline_set_symbol") or coq in BV_GROUP_COQ
+    if group == "wtnew":
+        return coq == "g_wt_new"
+    if group == "wt":
+        return coq != "g_wt_new"
+    if group == "qwtnew":
+        return coq in QWTNEW_COQ
+    if group == "qwt":
+        return coq not in QWTNEW_COQ
+    if group == "qvb":
+        return owner == "QVectorBuilder" or coq == "g_qv_from_iter"
+    if group == "qv2":
+        return owner in ("QVector", "DataLine") and coq != "g_qv_from_iter"
     if group == "bvm":
         return (owner == "BitVectorMut" and coq not in BV_GROUP_COQ) or coq == "g_bline_set_symbol"
     return owner in owners_g
@@ -3282,12 +3844,12 @@ def generate(repo, group, count=None):
                 text, sig = FnT5(world, unit, owner, fname, coq, subst).translate()
                 sig.t5 = True
         except Unsupported:
-            if n >= T5_START and rel != rel_g:
+            if n >= T5_START and (rel != rel_g or not in_group(group, owners_g, owner, coq)):
                 # a function of another group failed: only this group's callers of it are affected
                 continue
             raise
         except Exception as e:
-            if n >= T5_START and rel != rel_g:
+            if n >= T5_START and (rel != rel_g or not in_group(group, owners_g, owner, coq)):
                 continue
             raise Unsupported("%s: fn %s: unsupported construct (internal translator error: %r)" % (rel, fname, e))
         key = (rel, owner, fname.split("@")[0].split("::")[-1])
